@@ -7,6 +7,7 @@ import (
 	"os"
 	"path/filepath"
 	"runtime/debug"
+	"strconv"
 	"strings"
 	"time"
 	"unsafe"
@@ -425,9 +426,11 @@ func hashBytes(b []byte) string {
 	return hex.EncodeToString(h[:8])
 }
 
+// saveFound stores an input under replays/c12/found/ in the corpus format of the native fuzz target
+// FuzzParsedMessage, so that `./check C12 --replay <file>` runs the whole oracle on it again.
 func saveFound(b []byte, label string) string {
-	p := filepath.Join(foundDir(), fmt.Sprintf("input-%s-%s.eml", sanitize(label), hashBytes(b)))
-	_ = os.WriteFile(p, b, 0o644)
+	p := filepath.Join(foundDir(), fmt.Sprintf("FuzzParsedMessage-%s-%s", sanitize(label), hashBytes(b)))
+	_ = os.WriteFile(p, []byte("go test fuzz v1\n[]byte("+strconv.Quote(string(b))+")\n"), 0o644)
 
 	return p
 }
